@@ -287,7 +287,9 @@ type EmbB struct {
 	ED []int64 `json:"ed"`
 }
 
-var namePool = []string{"alpha", "beta", "gamma", "delta", "eps", "zeta", "eta", "theta", "we ird", "dot.ted", "ключ", "$ref", "properties", "items", "x-y", "omitempty_flag", "UPPER", "a1", "type", "required"}
+var namePool = []string{"alpha", "beta", "gamma", "delta", "eps", "zeta", "eta", "theta", "we ird", "dot.ted", "ключ", "$ref", "properties", "items", "x-y", "omitempty_flag", "UPPER", "a1", "type", "required",
+	// schema vocabulary as JSON field names (a client or server that rewrites keywords must not touch property names)
+	"definitions", "$defs", "enum", "additionalProperties", "anyOf", "default", "$schema", "title", "description"}
 var jsPool = []string{"", "", "", "", "required", "description=some text", "required,description=a, b", "description=d,required", "title=t;required", "description=a;title=b", "format=x", "required;description=z", "description=not required here"}
 
 type tgen struct {
@@ -459,6 +461,8 @@ func (g *tgen) special(td *TD, construct string) {
 		add(FD{Go: g.fieldName(), Tag: "-,", T: g.leaf()})
 	case "js-tags":
 		g.tagFields(td, used, add)
+	case "same-name":
+		g.sameName(td, used, add, wrap)
 	case "repeat":
 		// fragment construct: one struct type used by several fields (cached / referenced second occurrence)
 		inner := g.strct(1, nil)
@@ -522,5 +526,67 @@ func (g *tgen) special(td *TD, construct string) {
 		add(FD{Go: g.fieldName(), Tag: g.jsonName(used), T: host})
 	default:
 		panic("special: " + construct)
+	}
+}
+
+// sameName (fragment construct): several DISTINCT anonymous struct types sit under fields with the SAME Go name (and,
+// half of the time, the same JSON name) in different parents, at different depths, directly and below pointers / slices
+// / maps. A generator that names or caches a definition by the field instead of the type confuses them: every $ref
+// still resolves, but to the schema of another type.
+func (g *tgen) sameName(td *TD, used map[string]bool, add func(FD), wrap func(*TD) *TD) {
+	goName := []string{"Limits", "Cfg", "Opts", "Item"}[g.r.Intn(4)]
+	jsonTag := func() string {
+		if g.r.Intn(2) == 0 {
+			return strings.ToLower(goName) // the same JSON name everywhere
+		}
+		return ""
+	}
+	inner := func(k int) *TD { // pairwise distinct: a required member only this one has
+		st := g.strct(0, nil)
+		marker := []*TD{{K: "str"}, {K: "int", W: 4}, {K: "slice", E: &TD{K: "str"}}, {K: "bool"}, {K: "float", W: 1}}[k%5]
+		st.F = append(st.F, FD{Go: g.fieldName(), Tag: fmt.Sprintf("only_in_%c", 'a'+k), T: marker})
+		return st
+	}
+	parent := func(k int, depth int) *TD { // a struct whose field <goName> has the k-th inner type, `depth` plain levels down
+		pu := map[string]bool{}
+		p := &TD{K: "struct"}
+		if g.r.Intn(2) == 0 {
+			p.F = append(p.F, FD{Go: g.fieldName(), Tag: g.jsonName(pu), T: g.leaf()})
+		}
+		f := FD{Go: goName, Tag: jsonTag(), T: wrap(inner(k))}
+		if f.Tag != "" {
+			pu[f.Tag] = true
+		}
+		p.F = append(p.F, f)
+		if g.r.Intn(2) == 0 {
+			p.F = append(p.F, FD{Go: g.fieldName(), Tag: g.jsonName(pu), T: g.leaf()})
+		}
+		for ; depth > 0; depth-- {
+			nu := map[string]bool{}
+			p = &TD{K: "struct", F: []FD{{Go: g.fieldName(), Tag: g.jsonName(nu), T: p}}}
+		}
+		return p
+	}
+	n := 2 + g.r.Intn(2)
+	for k := 0; k < n; k++ {
+		p := parent(k, g.r.Intn(3))
+		switch g.r.Intn(4) {
+		case 0:
+			p = &TD{K: "slice", E: p}
+		case 1:
+			p = &TD{K: "map", E: p}
+		case 2:
+			p = &TD{K: "ptr", E: p}
+		}
+		f := FD{Go: g.fieldName(), Tag: g.jsonName(used), T: p}
+		if p.K == "ptr" && g.r.Intn(2) == 0 {
+			f.Tag += ",omitempty"
+		}
+		add(f)
+	}
+	// the root has such a field of its own (yet another type) unless the name is taken
+	if t := strings.ToLower(goName); !used[t] && !used[goName] {
+		used[t] = true
+		add(FD{Go: goName, Tag: t, T: wrap(inner(n))})
 	}
 }
